@@ -3,7 +3,7 @@
     returns the line the harness is expected to print. Glue; no theorem is about it. *)
 From Coq Require Import List String NArith Bool Arith.
 From FP Require Import Model.Chars Model.Ast Model.Sexp Model.Parse Model.Compile Model.Ser.
-From FP Require Import Spec.GuileReader.
+From FP Require Import Spec.GuileReader Model.ObsSem.
 Import ListNotations.
 Local Open Scope string_scope.
 Local Open Scope list_scope.
@@ -133,6 +133,7 @@ Definition run_case (line : str) : str :=
         | None => w "BAD-CASE"
         end
       else if tok_is kind "Z" then w "slept"
+      else if tok_is kind "EV" then obs_eval args
       else if tok_is kind "RD" then
         match args with a :: _ => obs_read (unhex a) | [] => w "BAD-CASE" end
       else if tok_is kind "V" then
